@@ -656,3 +656,54 @@ Definition iff_table : list (Z * string) :=
    (12, "multicast"); (13, "portsel"); (14, "automedia"); (15, "dynamic")]%string.
 Definition net_if_flags (flags : Z) : list string :=
   map snd (filter (fun p => negb (Z.land flags (2 ^ fst p) =? 0)) iff_table).
+
+(* =========================================================== threads inside getmntent() *)
+(* getmntent() returns a pointer into ONE static struct mntent + line buffer of libc, shared by all threads.
+   A thread of psutil_disk_partitions is: the entries of its file still to read, the tuples built so far, and
+   (only in the variant that drops the GIL around getmntent) whether it has read an entry it has not decoded yet. *)
+Record thr := { th_rest : list ment; th_out : list ment; th_pending : bool }.
+Record tsys := { ts_threads : list thr; ts_buf : option ment }.
+Definition th_init (files : list (list ment)) : tsys :=
+  {| ts_threads := map (fun f => {| th_rest := f; th_out := []; th_pending := false |}) files; ts_buf := None |}.
+Fixpoint set_nth {A} (l : list A) (i : nat) (x : A) : list A :=
+  match l, i with
+  | [], _ => []
+  | _ :: r, O => x :: r
+  | a :: r, S j => a :: set_nth r j x
+  end.
+Definition decode_buf (b : option ment) : list ment := match b with Some e => [e] | None => [] end.
+
+(* the code as it is: the GIL is held from getmntent() to the end of the decoding of that entry (in fact across the
+   whole loop), so "read the next entry into the static storage and build the tuple from it" is one atomic step *)
+Definition step_gil (s : tsys) (i : nat) : tsys :=
+  match nth_error (ts_threads s) i with
+  | Some t =>
+    match th_rest t with
+    | e :: r =>
+      let buf := Some e in
+      {| ts_threads := set_nth (ts_threads s) i {| th_rest := r; th_out := th_out t ++ decode_buf buf; th_pending := false |};
+         ts_buf := buf |}
+    | [] => s
+    end
+  | None => s
+  end.
+
+(* variant with Py_BEGIN/END_ALLOW_THREADS around getmntent(): reading and decoding are two steps, and other threads
+   may run in between *)
+Definition step_nogil (s : tsys) (i : nat) : tsys :=
+  match nth_error (ts_threads s) i with
+  | Some t =>
+    if th_pending t
+    then {| ts_threads := set_nth (ts_threads s) i {| th_rest := th_rest t; th_out := th_out t ++ decode_buf (ts_buf s);
+                                                       th_pending := false |};
+            ts_buf := ts_buf s |}
+    else match th_rest t with
+         | e :: r => {| ts_threads := set_nth (ts_threads s) i {| th_rest := r; th_out := th_out t; th_pending := true |};
+                        ts_buf := Some e |}
+         | [] => s
+         end
+  | None => s
+  end.
+
+(* a schedule is the list of thread numbers in the order they are given the processor *)
+Definition run_sched (step : tsys -> nat -> tsys) (sched : list nat) (s : tsys) : tsys := fold_left step sched s.
